@@ -294,6 +294,12 @@ def rule_FC(ctx):
     rets = [(s[1], g) for s, g in walk_stmts(sf["body"]) if s[0] == "return"]
     cond = ("bin", "==", S("blocks_compressed"), ("int", 0))
     ok = len(rets) == 2 and any(r == ("enum", "CHUNK_START", 1) and g == ((cond, True),) for r, g in rets) and any(r == ("int", 0) and g == ((cond, False),) for r, g in rets)
+    if not ok and len(rets) == 1 and rets[0][1] == () and isinstance(rets[0][0], tuple) and rets[0][0][0] == "cond":
+        # the same decision written as one conditional expression, either polarity
+        c_, a_, b_ = rets[0][0][1:4]
+        val_ = lambda x: r_cbudget_norm(x)
+        ok = (nc(c_) == cond and val_(a_) == ("int", 1) and val_(b_) == ("int", 0)) or \
+             (nc(c_) == ("bin", "!=", cond[2], cond[3]) and val_(a_) == ("int", 0) and val_(b_) == ("int", 1))
     ctx.ob(ok, "c-start-flag", t.path, "CHUNK_START exactly when blocks_compressed == 0: %s" % ok)
     # blocks_compressed += 1 right after each compression in chunk_state_update
     cu = need(t, "chunk_state_update")
@@ -832,6 +838,11 @@ def rule_LZC(ctx):
             c = N(st[1])
             if not (len(subs) >= 1 and subs[0] and subs[0][-1][0] == "return" and (len(subs) == 1 or not subs[1])):
                 continue
+            if c in (("bin", "==", ("var", "input_len"), ("int", 0)), ("un", "!", ("var", "input_len"))):
+                # third accepted form: `if (input_len == 0) return;` earlier on the path, input_len untouched since
+                if not any(later[0] == "assign" and N(later[2]) == ("var", "input_len") for later in pre[k + 1:]):
+                    return True
+                continue
             if not (c[0] == "bin" and c[1] == "<=" and c[2] == ("var", "input_len") and c[3][0] == "var"):
                 continue
             V = c[3]
@@ -980,7 +991,7 @@ def rule_ZPC(ctx):
                     writers.add(fn)
     allowed = {"chunk_state_init", "chunk_state_reset", "chunk_state_fill_buf", "chunk_state_update"}
     ctx.ob(writers <= allowed and "chunk_state_update" in writers, "c-buffer-fields-written-only-by-chunk-state-functions", t.path, "writers of buf/buf_len: %s" % sorted(writers))
-    ctx.floor("C length resets with zeroing", n, 3)
+    ctx.floor("C length resets with zeroing", n, 2)      # init may delegate to reset: at least reset and update
 
 
 NO_ISA = ("BLAKE3_NO_SSE2", "BLAKE3_NO_SSE41", "BLAKE3_NO_AVX2", "BLAKE3_NO_AVX512")
@@ -1082,13 +1093,47 @@ def rule_HBC(ctx):
         except bitclass.Undecided as e:
             bad.append("highest bit %d: %s" % (q, e))
     ctx.ob(not bad, "c-highest_one", where(t, f["line"]), "; ".join(bad[:4]) or "returns q for every x in [2^q, 2^(q+1)) and every q in 0..63")
+    def as_assign(s_):
+        if isinstance(s_, tuple) and s_ and s_[0] == "expr" and isinstance(s_[1], tuple) and s_[1][0] == "bin" and s_[1][1].endswith("=") and s_[1][1] not in ("==", "!=", "<=", ">="):
+            return ("assign", s_[1][1], s_[1][2], s_[1][3]) + tuple(s_[2:])
+        return s_
+
+    def for_to_while(stmts):
+        out = []
+        for s_ in stmts:
+            if isinstance(s_, tuple) and s_ and s_[0] == "loop" and s_[1] == "for":
+                init = list(s_[5]) if len(s_) > 5 and isinstance(s_[5], list) else []
+                inc = [as_assign(x_) for x_ in (s_[6] if len(s_) > 6 and isinstance(s_[6], list) else [])]
+                out.extend(init)
+                out.append(("loop", "while", s_[2], list(s_[3]) + inc, s_[4], [], []))
+            else:
+                out.append(s_)
+        return out
+
+    def prop_consts(stmts):
+        """substitute single-assignment initialised locals into the final return"""
+        if not stmts or stmts[-1][0] != "return":
+            return stmts
+        env = {}
+        for s_ in stmts[:-1]:
+            if s_[0] == "decl" and s_[3] is not None:
+                env[s_[1]] = s_[3]
+            else:
+                return stmts
+        def sub(x):
+            if isinstance(x, tuple):
+                if len(x) >= 2 and x[0] == "var" and x[1] in env:
+                    return sub(env[x[1]])
+                return tuple(sub(y) for y in x)
+            return x
+        return [("return", sub(stmts[-1][1])) + tuple(stmts[-1][2:])]
     p = need(t, "popcnt")
-    body = _strip_lines(p["body"])
+    body = _strip_lines(for_to_while(p["body"]))
     okb = body == [("return", ("cast", ("call", "__builtin_popcountll", (("var", "x", "param"),)), "unsigned int", "int"))] or body == _strip_lines(KERNIGHAN)
     ctx.ob(okb, "c-popcnt", where(t, p["line"]), "popcnt is %s" % ("the builtin or Kernighan's loop" if okb else "neither enumerated form: %s" % (body,)))
     r = need(t, "round_down_to_power_of_2")
-    body = _strip_lines(r["body"])
-    okr = len(body) == 1 and body[0][0] == "return" and nc(body[0][1]) == ("bin", "<<", ("int", 1), ("call", "highest_one", (("bin", "|", ("var", "x", "param"), ("int", 1)),)))
+    body = _strip_lines(prop_consts(r["body"]))
+    okr = len(body) == 1 and body[0][0] == "return" and r_cbudget_norm(body[0][1]) == ("bin", "<<", ("int", 1), ("call", "highest_one", (("bin", "|", ("var", "x"), ("int", 1)),)))
     ctx.ob(okr, "c-round_down_to_power_of_2", where(t, r["line"]), "1ULL << highest_one(x | 1): %s" % okr)
 
 
@@ -1230,7 +1275,7 @@ def rule_D4C(ctx):
         if c[0] == "bin" and c[1] == "==" and c[2][0] == "bin" and c[2][1] == "&" and c[2][2] == ("var", st.get("mask"), "var"):
             a, b = cfold(c[2][3]), cfold(c[3])
             if a is not None and a == b:
-                return [("xcr0", a)]
+                return [("xcr0", a)] + (list(st.get("mask_implies", [])) if a else [])
         if c[0] == "bin" and c[1] == ">=" and c[2] == ("var", st.get("maxid"), "var"):
             b = cfold(c[3])
             if b is not None:
@@ -1245,6 +1290,10 @@ def rule_D4C(ctx):
                     regs[s[1]] = ["eax", "ebx", "ecx", "edx"][e[2][2][1]] if e[2][2][1] < 4 else "?"
                 elif e == ("call", "xgetbv", ()):
                     st["mask"] = s[1]
+                elif e[0] == "cond" and e[2] == ("call", "xgetbv", ()) and r_cbudget_norm(e[3]) == ("int", 0):
+                    # mask = <cond> ? xgetbv() : 0 -- a non-zero state-bit test on mask implies <cond>
+                    st["mask"] = s[1]
+                    st["mask_implies"] = [a_ for a_ in cond_atoms(e[1], st) if a_ is not None]
                 elif e[:2] == ("un", "*") and e[2][0] == "var" and regs.get(e[2][1]) == "eax" and st["leaf"] == (0, None):
                     st["maxid"] = s[1]
             if s[0] == "expr" and s[1][0] == "call" and s[1][1] in ("cpuid", "cpuidex"):
@@ -1438,7 +1487,7 @@ def rule_MOC(ctx):
         b = {}
         bq = br[-1]
         subs = [x for x in bq if isinstance(x, list)]
-        f1 = pm(("bin", ">", ("call", "chunk_state_len", (S["CHUNK"],)), ("int", 0)), N(bq[1]), b)
+        f1 = pm(("bin", "!=", ("call", "chunk_state_len", (S["CHUNK"],)), ("int", 0)), N(bq[1]), b)
         f2 = pm([("assign", "=", V("cvs_remaining"), S["LEN"]), ("assign", "=", V("output"), ("call", "chunk_state_output", (S["CHUNK"],)))], seq_of(subs[0]), b)
         f3 = pm([("assign", "=", V("cvs_remaining"), ("bin", "-", S["LEN"], ("int", 2))),
                  ("assign", "=", V("output"), ("call", "parent_output", (S["slot"](V("cvs_remaining")), S["KEY"], S["FLAGS"])))], seq_of(subs[1]), b)
@@ -1446,7 +1495,7 @@ def rule_MOC(ctx):
         PB = V("parent_block")
         want = [("assign", "-=", V("cvs_remaining"), ("int", 1)), ("call", "memcpy", (PB, S["slot"](V("cvs_remaining")), ("int", 32))),
                 ("call", "output_chaining_value", (("un", "&", V("output")), ("un", "&", ("index", PB, ("int", 32))))), ("assign", "=", V("output"), ("call", "parent_output", (PB, S["KEY"], S["FLAGS"])))]
-        f4 = pm(("bin", ">", V("cvs_remaining"), ("int", 0)), N(L[2]), b) and pm(want, seq_of(L[3]), b)
+        f4 = pm(("bin", "!=", V("cvs_remaining"), ("int", 0)), N(L[2]), b) and pm(want, seq_of(L[3]), b)
         okf = f1 and f2 and f3 and f4
         detail = "start from the chunk output with all of the stack %s / from stack[len-2]||stack[len-1] %s (chosen by chunk_state_len > 0 %s); fold stack[i] || cv downwards %s" % (f2, f3, f1, f4)
     else:
@@ -1495,7 +1544,7 @@ def rule_TMC(ctx):
     SELF = ("var", u["params"][0][0])
     CHUNK = ("un", "&", ("member", SELF, "chunk"))
     CTR = ("member", ("member", SELF, "chunk"), "chunk_counter")
-    nonempty = ("bin", ">", ("call", "chunk_state_len", (CHUNK,)), ("int", 0))
+    nonempty = ("bin", "!=", ("call", "chunk_state_len", (CHUNK,)), ("int", 0))
     sites = []
 
     def walk(stmts, guards):
